@@ -332,11 +332,15 @@ fn o_fcanon<V: ORt<P>, P: Purpose>(key: &[u8], msg: &[u8], f: &[u8]) -> R {
     let s2 = format!("{}.{}.{}.{}", head[0], head[1], payload, crate::gen_text::b64(&alt));
     DEC.with(|c| c.set(0));
     VAL.with(|c| c.set(0));
-    let altered = match s2.parse::<SealedToken<V, P, RecRaw, TrimFooter>>() {
-        Ok(t2) => t2.unseal(&pk, &[], &RecAllow).is_ok(),
-        Err(_) => false,
+    let (altered, alt_reser) = match s2.parse::<SealedToken<V, P, RecRaw, TrimFooter>>() {
+        Ok(t2) => {
+            // an accepted token string re-serialises to itself, whatever the footer type makes of the footer bytes
+            let reser = t2.to_string() == s2;
+            (t2.unseal(&pk, &[], &RecAllow).is_ok(), reser)
+        }
+        Err(_) => (false, true),
     };
-    Ok(format!("genuine={} altered_accepted={} dec={} val={}", genuine as u8, altered as u8, DEC.with(|c| c.get()), VAL.with(|c| c.get())))
+    Ok(format!("genuine={} altered_accepted={} dec={} val={} alt_reser={}", genuine as u8, altered as u8, DEC.with(|c| c.get()), VAL.with(|c| c.get()), alt_reser as u8))
 }
 
 trait ORt<P: Purpose>: SealingVersion<P> {
